@@ -454,6 +454,9 @@ func (g *gen) slotNear(id int, l string) uint64 {
 		hs = h.Slot
 	}
 	switch c := g.intn(0, 99, l+"_cls"); {
+	case c < 3 && l == "closest":
+		// slots near the top of the uint64 range (e.g. FAR_FUTURE-like sentinels): arithmetic on (anchor slot + slot) wraps
+		return []uint64{^uint64(0), ^uint64(0) - uint64(g.intn(0, 60, l+"_top")), 1 << 63, 1<<63 + uint64(g.intn(0, 40, l+"_mid")), 1 << 32}[g.intn(0, 4, l+"_huge")]
 	case c < 8:
 		if fs > 0 {
 			return fs - 1
